@@ -39,7 +39,7 @@ func childMain(args []string) int {
 	// a runaway recursion (cyclic array) should die quickly, not after growing a 1 GB stack
 	debug.SetMaxStack(96 << 20)
 	env := vh.NewEnv()
-	pre := env.RunSource("<?php\n"+classPrelude+xPrelude(), "/verif-c06-prelude.php")
+	pre := env.RunSource(fullPrelude(), "/verif-c06-prelude.php")
 	in := bufio.NewReaderSize(os.Stdin, 1<<20)
 	out := bufio.NewWriter(proto)
 	n := 0
@@ -55,7 +55,7 @@ func childMain(args []string) int {
 		n++
 		if n%3000 == 0 {
 			env = vh.NewEnv()
-			pre = env.RunSource("<?php\n"+classPrelude+xPrelude(), "/verif-c06-prelude.php")
+			pre = env.RunSource(fullPrelude(), "/verif-c06-prelude.php")
 		}
 		var rs wResp
 		if pre.Kind != "ok" {
@@ -64,7 +64,7 @@ func childMain(args []string) int {
 			e := env
 			if rq.Fresh {
 				e = vh.NewEnv()
-				e.RunSource("<?php\n"+classPrelude+xPrelude(), "/verif-c06-prelude.php")
+				e.RunSource(fullPrelude(), "/verif-c06-prelude.php")
 			}
 			o := e.RunSource(rq.Src, "/verif-c06-case.php")
 			rs = wResp{ID: rq.ID, Kind: o.Kind, Out: o.Out, Detail: o.Detail}
